@@ -175,6 +175,37 @@ Proof.
 Qed.
 Print Assumptions C02_any_error_resets.
 
+(* ---- several parsers in one process *)
+
+(* Interleaving irrelevance: for any number of parsers in any states and ANY interleaving
+   of operations (feed_data on parser i; reset of / construction of a new parser in slot i),
+   parser i passes through exactly the states and emits exactly the outputs it would when
+   run alone on its own operations: the state (partial packet buffer included) is per
+   parser. *)
+Theorem C02_parsers_independent : forall ops ss i, (i < length ss)%nat ->
+  nth i (fst (multi_run packet_info ss ops)) reset =
+    fst (solo_run packet_info (nth i ss reset) (ops_of i ops)) /\
+  outs_of i (snd (multi_run packet_info ss ops)) =
+    snd (solo_run packet_info (nth i ss reset) (ops_of i ops)).
+Proof. exact (multi_run_independent packet_info). Qed.
+Print Assumptions C02_parsers_independent.
+
+(* Hence: any chunking of parser i's own well-formed stream (from the initial state, or
+   after a reset / construction in its slot wherever it was before), interleaved in any way
+   with whatever the other parsers are fed or have done to them, is delivered exactly. *)
+Theorem C02_interleaved_streams : forall ops ss i pkts chunks,
+  (i < length ss)%nat ->
+  ops_of i ops = MReset i :: map (MFeed i) chunks \/
+  (nth i ss reset = reset /\ ops_of i ops = map (MFeed i) chunks) ->
+  forallb (wf_packet packet_info) pkts = true -> concat chunks = concat pkts ->
+  nth i (fst (multi_run packet_info ss ops)) reset = reset /\
+  concat (outs_of i (snd (multi_run packet_info ss ops))) = map Packet pkts.
+Proof.
+  intros ops ss i pkts chunks Hi Hops Hp Hc.
+  exact (interleaved_streams packet_info ops ss i pkts chunks C02_table_wf Hi Hops Hp Hc).
+Qed.
+Print Assumptions C02_interleaved_streams.
+
 (* ---- server transports (tcp_server, unix; after fix D02) *)
 
 (* Whatever state the shared parser is in when a client connects (whatever earlier
@@ -348,6 +379,17 @@ Example C02_usb_run :
   split_feeds 1 1 [] (cut [1; 1; 3; 1] [14; 0; 62; 2; 9; 8; 19; 1; 5]) =
   ([], [[]; [[14; 0]]; []; [[62; 2; 9; 8]]; [[19; 1; 5]]]).
 Proof. vm_compute. reflexivity. Qed.
+
+(* two parsers fed in alternation with switches inside packets, and a third slot
+   constructed / reset while both are mid-packet: each delivers its own packets *)
+Example C02_two_parsers :
+  let ops := [MFeed 0 [1; 3]; MFeed 1 [4; 14; 4; 1]; MReset 2; MFeed 0 [12; 0; 2; 64];
+              MFeed 1 [3; 12; 0]; MFeed 2 [4; 19; 0]; MFeed 0 [0; 1; 0; 7]] in
+  let r := snd (multi_run packet_info [reset; reset; reset] ops) in
+  concat (outs_of 0%nat r) = [Packet [1; 3; 12; 0]; Packet [2; 64; 0; 1; 0; 7]] /\
+  concat (outs_of 1%nat r) = [Packet [4; 14; 4; 1; 3; 12; 0]] /\
+  concat (outs_of 2%nat r) = [Packet [4; 19; 0]].
+Proof. vm_compute. repeat split. Qed.
 
 (* D02b: the netsim witness (a device whose last message is a truncated event, then a
    device sending a complete event) is delivered by the fixed life cycle *)
